@@ -2,7 +2,7 @@
    Proofs/Symbols.v.  The model is the pinned code, which does not satisfy the property: the
    refuted theorems give the witnesses, the partial theorems say what does hold. *)
 From Coq Require Import List NArith ZArith Bool.
-From PV Require Import Model.Symbols Proofs.Symbols.
+From PV Require Import Model.Symbols Proofs.Symbols Proofs.SymbolsH.
 Import ListNotations.
 
 (* the property fails even for a file without imports in the root package: an extension-number
@@ -63,3 +63,52 @@ Example C17_partial_nonvacuous :
   let T := fst (import wD0 []) in
   deps_settled import T wD1 /\ import wD1 T = (T, Err (ESym [4%N; 7%N] false)).
 Proof. exact partial_nonvacuous. Qed.
+
+(* ---- the kind of handler.  importH makes the handler explicit (fail-fast: the reporter returns
+   the error; collecting: the reporter returns nil and Handler.Error() becomes ErrInvalidSource);
+   import above is its fail-fast instance ---- *)
+Theorem C17_fail_fast_handler_is_import :
+  forall f T, importH HAbort f T [] =
+              let '(T', r) := import f T in (T', match r with Err e => [e] | Ok => [] end, r).
+Proof. exact importH_abort_lemma. Qed.
+Print Assumptions C17_fail_fast_handler_is_import.
+
+(* the partial theorem for either kind of handler: packages registered, dependencies imported, and
+   the import reported a name collision => the table is literally unchanged, every observation is,
+   and importing again reports and returns the same *)
+Theorem C17_failed_import_is_noop_partial_any_handler :
+  forall m T f T' hs r,
+    deps_settledH m T f -> importH m f T [] = (T', hs, r) -> (exists n b, In (ESym n b) hs) ->
+    T' = T /\ (forall q, observeH m T' q = observeH m T q) /\ importH m f T' [] = (T', hs, r).
+Proof. exact failed_import_is_noop_partialH_lemma. Qed.
+Print Assumptions C17_failed_import_is_noop_partial_any_handler.
+
+(* the three defect classes under the collecting handler *)
+Theorem C17_collect_refuted_extnum :
+  exists f T' hs r q, deps_settledH HCollect [] f /\ importH HCollect f [] [] = (T', hs, r) /\ hs <> [] /\
+                      observeH HCollect T' q <> observeH HCollect [] q /\
+                      importH HCollect f T' [] = (T', [], Ok).
+Proof. exact refuted_extnum_collect_lemma. Qed.
+Print Assumptions C17_collect_refuted_extnum.
+
+Theorem C17_collect_refuted_deps :
+  exists h f T' hs r q,
+    let T := fst (run_opsH HCollect [] h) in
+    importH HCollect f T [] = (T', hs, r) /\ hs <> [] /\ observeH HCollect T' q <> observeH HCollect T q.
+Proof. exact refuted_deps_collect_lemma. Qed.
+Print Assumptions C17_collect_refuted_deps.
+
+Theorem C17_collect_refuted_packages :
+  exists h f T' hs r g,
+    let T := fst (run_opsH HCollect [] h) in
+    importH HCollect f T [] = (T', hs, r) /\ hs <> [] /\
+    observeH HCollect T (QImport g) = AHRes [] Ok /\
+    observeH HCollect T' (QImport g) = AHRes [ESym [18%N; 17%N] true] (Err EInvalid).
+Proof. exact refuted_packages_collect_lemma. Qed.
+Print Assumptions C17_collect_refuted_packages.
+
+(* non-vacuity under the collecting handler: the gate Handler.Error() stops the commit *)
+Example C17_partial_any_handler_nonvacuous :
+  let T := fst (fst (importH HCollect wD0 [] [])) in
+  deps_settledH HCollect T wD1 /\ importH HCollect wD1 T [] = (T, [ESym [4%N; 7%N] false], Err EInvalid).
+Proof. exact partialH_nonvacuous. Qed.
